@@ -10,7 +10,11 @@ EXPLANATION = ("G1 on every path of the frame decoder, `Ok(None)` (need more byt
                "that got past the parser consumes exactly once, by `buf.advance(buf.len() - rest.len())` where rest is the remainder "
                "component of that very parser result, and the parser is applied to the whole buffer; G3 every nom primitive reachable "
                "from the TLV parser (MIR call graph) is the `streaming` variant, so a short buffer yields Incomplete rather than an error "
-               "or a truncated value, and the empty buffer is mapped to Incomplete; G4 the codec keeps no state across calls in this "
+               "or a truncated value; the streaming entry point Parser::parse, evaluated once per value of the first length octet with the other octets and the "
+               "number of octets buffered symbolic, is on every path the TLV parser applied to the caller's input, or a test of its own that answers "
+               "Incomplete under a condition which contradicts len(input) >= identifier octet + length octets + announced length (the empty buffer, a lone "
+               "identifier octet, a length field that has not arrived - where the TLV parser would ask for more as well); an answer of its own that is not "
+               "Incomplete, or Incomplete for a buffer that may hold the whole element, is a violation however the pre-tests are spelled; G4 the codec keeps no state across calls in this "
                "configuration and Decoder::decode is the frame decoder applied to the caller's buffer; G7 (gssapi configuration, where the "
                "codec carries the SASL token layer) every error path of Decoder::decode is the frame decoder's own answer or the failure "
                "of the unwrap primitive - a shortfall of buffered bytes is never an error - and a literal Ok(None) path has not touched "
